@@ -138,7 +138,7 @@ class SerEnv:
             res = fn()
         except Exception as e:  # the property is about failing saves
             exc = e
-        except simstore.SimKeyboardInterrupt as e:   # an injected Ctrl-C (never a real one)
+        except (simstore.SimKeyboardInterrupt, simstore.SimSystemExit) as e:   # injected, never real
             exc = e
         inflight_at_return = self.sim.loop.inflight
         self.sim.loop.drain()
